@@ -27,7 +27,7 @@ structure St where
   sw : Option SW
   bw : BWn
 
-def ext : Ext := { bstr := id, unbstr := id }
+def ext : Ext := { bstr := bstrMarshal, unbstr := id }
 
 partial def parseVal (s : List Char) : Option Val :=
   match s with
